@@ -81,6 +81,15 @@ CHECK_DEADLOCK FALSE
 
 
 def part_refine(ck, name, workers):
+    import time, sys
+    t0 = time.time()
+    try:
+        return part_refine_(ck, name, workers)
+    finally:
+        sys.stderr.write("[C14] refine %s: %.0f s\n" % (name, time.time() - t0))
+
+
+def part_refine_(ck, name, workers):
     cfg = json.load(open(os.path.join(CFG_DIR, name + ".json")))
     wd = vlib.workdir(PID, name)
     vlib.stage_specs(wd, "intset")
@@ -234,8 +243,14 @@ def run(tier):
             futs = [pool.submit(part_refine, ck, n, 4) for n in names]
             for f in futs:
                 f.result()
+    import time, sys
+    t0 = time.time()
     part_sbs(ck, tier)
+    sys.stderr.write("[C14] sbs: %.0f s\n" % (time.time() - t0))
+    t0 = time.time()
     part_rangeset(ck)
+    sys.stderr.write("[C14] rangeset: %.0f s\n" % (time.time() - t0))
+    t0 = time.time()
     if tier == "quick":
         part_trace(ck, "u32big", cases=20, steps=150)
         part_trace(ck, "discq", cases=10, steps=100)
@@ -244,6 +259,7 @@ def run(tier):
             part_trace(ck, "u32big", cases=50, steps=400, seed_off=i)
         for n in ["disc", "u16", "glyphid", "small4"]:
             part_trace(ck, n, cases=30, steps=300)
+    sys.stderr.write("[C14] traces: %.0f s\n" % (time.time() - t0))
     return ck.finish()
 
 
